@@ -27,7 +27,7 @@ def demo_pkg(demo):
     rc,out = sh("grep -rl --include=*.go '^package %s$' . | head -1" % name, cwd='/repo')
     return './' + os.path.dirname(out.strip()) if out.strip() else '.'
 if not skip:
-    wt = '/tmp/mw_' + os.path.basename(os.path.dirname(mdir.rstrip('/'))) + '_' + os.path.basename(mdir.rstrip('/'))
+    wt = '/tmp/mw_' + prop + '_' + os.path.basename(mdir.rstrip('/'))
     sh('git -C /repo worktree remove --force %s' % wt)
     rc,out = sh('git -C /repo worktree add -q --detach %s HEAD' % wt)
     try:
